@@ -68,6 +68,13 @@ def _update_dict(flow, call: ast.Call, argname: str | None):
         if len(ds) == 1:
             node = ds[0].value
     d = dict_literal_keys(node)
+    if d is None and isinstance(node, ast.Dict) and any(k is None for k in node.keys) and any(k is not None for k in node.keys):
+        # {**forwarded, 'key': value}: the literal keys are checked here, the forwarded mapping where it is built
+        lit = ast.Dict(keys=[k for k in node.keys if k is not None], values=[v for k, v in zip(node.keys, node.values) if k is not None])
+        d = dict_literal_keys(lit)
+        if d is not None and all(_forwards_parameter(flow, v) for k, v in zip(node.keys, node.values) if k is None):
+            return d, node
+        d = None
     if d is None and _forwards_parameter(flow, node):
         return {}, node   # the caller's mapping passed on (possibly copied): its keys are checked where it is built
     return d, node
